@@ -57,8 +57,20 @@ def proof_modules(prop):
     wip = set()
     if os.path.exists(os.path.join(d, '.wip')):
         wip = set(l.strip() for l in open(os.path.join(d, '.wip')) if l.strip())
-    return sorted(f[:-5] for f in os.listdir(d)
-                  if re.fullmatch(re.escape(prop) + r'([a-z][A-Za-z0-9]*)?\.lean', f) and f not in wip)
+    own = [f[:-5] for f in os.listdir(d)
+           if re.fullmatch(re.escape(prop) + r'([a-z][A-Za-z0-9]*)?\.lean', f) and f not in wip]
+    # theorems of this property stated in another property's file (one refinement or one translation serves several
+    # properties: `C07_terminates_s3` lives in C01d.lean, `C14_builder_translated` in C09b.lean): those files are built and
+    # their `<prop>_*` theorems audited under this property too
+    guest = []
+    for f in os.listdir(d):
+        if re.fullmatch(r'C\d\d([a-z][A-Za-z0-9]*)?\.lean', f) and f not in wip and f[:-5] not in own:
+            try:
+                if re.search(r'^theorem\s+' + re.escape(prop) + r'_', open(os.path.join(d, f)).read(), re.M):
+                    guest.append(f[:-5])
+            except OSError:
+                pass
+    return sorted(own) + sorted(guest)
 
 
 def import_closure(mods):
